@@ -52,6 +52,14 @@ def setup(v, sid, etm, seed, early=False):
         from tlslite.constants import ExtensionType
         cst = S.base_settings(minv=v, maxv=(3, 4))
         cst.useEncryptThenMAC = etm
+        # (suites outside the defaults - NULL, RC4, CCM_8 - are switched on
+        # next to them, so that every family takes part)
+        info_ = S.ALL_INFOS[sid]
+        for attr, val in (("cipherNames", info_.setting_cipher()),
+                          ("macNames", info_.setting_mac()),
+                          ("keyExchangeNames", info_.setting_kex())):
+            if val and val not in getattr(cst, attr):
+                setattr(cst, attr, list(getattr(cst, attr)) + [val])
         cst.pskConfigs = [(b"early-offer", b"\x44" * 32, "sha256")]
         orig = ClientHello.create
 
